@@ -428,8 +428,54 @@ def _shard(task: tuple[str, int, int, int]) -> Stats:
     return st
 
 
+GAPS = (0, 1, 2, 15, 16, 17, 63, 64, 65, 127, 128, 129, 255, 256, 257, 511, 512, 513, 1023, 1024, 1025, 4095, 4096, 4097)
+
+
+def _capacity(task: tuple[int, bool]) -> Stats:
+    """history: the same unregistered attribute / type text parsed in context A, then K OTHER distinct unregistered names
+    parsed (in fresh contexts), then the text parsed again in context B — K over the boundary list GAPS (every power of two
+    up to 4096 and its neighbours: sizes at which a bounded cache would start evicting).  A and B results must be equal,
+    hash alike, and stay equal to a third parse in A."""
+    from xdsl.context import Context
+    from xdsl.parser import Parser
+
+    gap, is_type = task
+    st = Stats()
+    text = "!capx.victim<i32>" if is_type else "#capx.victim<1>"
+
+    def parse(ctx, t):
+        p = Parser(ctx, t)
+        return p.parse_type() if t.startswith("!") else p.parse_attribute()
+
+    a_ctx = Context(allow_unregistered=True)
+    a = parse(a_ctx, text)
+    for k in range(gap):
+        c = Context(allow_unregistered=True)
+        parse(c, f"#capf.n{k}<1>")
+        parse(c, f"!capf.n{k}<i32>")
+        st.transitions += 2
+    b = parse(Context(allow_unregistered=True), text)
+    a2 = parse(a_ctx, text)
+    st.states += 1
+    st.executions += 3
+    st.evaluations += 6
+    st.nontrivial += 1 if gap else 0
+    kind = "type" if is_type else "attr"
+    wit = {"text": text, "other_names_parsed_in_between": gap}
+    if not (a == b and b == a and a == a2 and a2 == b):
+        st.violate(f"C08|history|unregistered-{kind}|parsed-twice-unequal-after-other-names",
+                   f"{text} parsed in two contexts compares unequal once {gap} other unregistered names were parsed in between", wit)
+    elif not (hash(a) == hash(b) == hash(a2)):
+        st.violate(f"C08|history|unregistered-{kind}|equal-with-different-hash-after-other-names",
+                   f"{text} parsed in two contexts is equal but hashes differently after {gap} other unregistered names", wit)
+    st.outcomes[f"capacity-gap-checked:{kind}"] += 1
+    return st
+
+
 def run(ctx: Any) -> None:
     tier = "quick" if ctx.quick else "thorough"
+    for _, st in pmap(_capacity, [(g, t) for g in ([g for g in GAPS if g <= 1025] if ctx.quick else GAPS + (16383, 16384, 16385)) for t in (False, True)]):
+        ctx.merge(st)
     n = len(recipes(tier))
     step = max(8, n // (16 if ctx.quick else 96))      # every shard rebuilds the pool: few shards in quick
     tasks = [(tier, lo, lo + step, ctx.seed) for lo in range(0, n, step)]
@@ -437,6 +483,7 @@ def run(ctx: Any) -> None:
         ctx.merge(st)
     ctx.bounds = {"pool_recipes": n, "built_descs_each_twice": sum(1 for r in recipes(tier) if r[0] == "build") // 2,
                   "dialect_texts_two_contexts": len(DIALECT_TEXTS), "unregistered_texts_three_parses": len(UNREGISTERED_TEXTS),
+                  "unregistered_reparse_after_k_other_names": [g for g in GAPS if g <= 1025] if ctx.quick else list(GAPS) + [16383, 16384, 16385],
                   "pairs": "all ordered pairs of the pool", "triples": "all triples (a,b,c) with a==b and b==c (the others cannot violate transitivity)"}
     ctx.rule = ("pool = every recipe of props/c08.recipes(tier) materialised in each worker; every ordered pair is compared with ==, !=, "
                 "hash and the harness structural key; states = distinct structural keys in the pool, transitions = constructor "
@@ -448,6 +495,9 @@ def run(ctx: Any) -> None:
 
 def replay(rep: dict[str, Any]) -> bool:
     st = Stats()
+    if "other_names_parsed_in_between" in rep["witness"]:
+        w = rep["witness"]
+        return rep["signature"] not in _capacity((w["other_names_parsed_in_between"], w["text"].startswith("!"))).violations
     pool = materialize(rep["witness"]["items"])
     if len(pool) != len(rep["witness"]["items"]):
         return True
